@@ -20,6 +20,7 @@
     placeholder_text_straddles msg_element_first_child_mismatch
     code_call_reported code_literal_call_reported code_reported_is_call code_reported_exactly nested_call_was_missed
     code_call_sites_extracted code_list_is_call_sites
+    lookups_subset_extract_args identity_transparent_msg_skip skip_generalises_reorder
 -/
 import Genshi.Lemmas.I18nTree
 import Genshi.Lemmas.I18nStarts
@@ -34,6 +35,7 @@ import Genshi.Lemmas.I18nPyExpr
 import Genshi.Lemmas.I18nPassEq
 import Genshi.Lemmas.I18nPassReorder
 import Genshi.Lemmas.I18nPyStream
+import Genshi.Lemmas.I18nPassSkip
 import Genshi.Model.I18nExtract
 namespace Genshi.Props.C19
 open Genshi Genshi.I18n
@@ -189,6 +191,39 @@ theorem lookups_subset_extract_partial (cfg : Cfg) (ctx : Ctx) (s : TStream) (h 
       (∀ l ∈ lookups cfg ctx true true s, hasLetter l.msgid = true → l.msgid ∈ idsOf ms) ∧
       (∀ id ∈ msgIdsW s, id ∈ idsOf ms) :=
   lookups_subset_extract_wide cfg ctx s h
+
+/-- **lookups_subset_extract with every argument of the two entry points quantified** (wave 4).
+    `lookups_subset_extract_partial` fixes the arguments at their defaults; here
+      * `Translator.__call__(stream, ctxt, translate_text=tt, translate_attrs=ta)` — both flags and
+        the template context (`_i18n.domain` / `_i18n.context` frames) arbitrary,
+      * `Translator.extract(stream, search_text=st, comment_stack=cs, context_stack=xs)` — any
+        comment and context stacks (a non-empty context stack turns every message into its
+        `pgettext` / `npgettext` form: `contextify`), `search_text` either `True` or — only when
+        the instance has `extract_text=False`, where the pass looks no text up — `False`
+        (`extractWith`; correspondence stream `extractw`),
+      * the instance: `ignore_tags`, `include_attrs`, `extract_text` arbitrary (`cfg`), literal
+        `xml:lang` handled inside (`excluded`).
+    `Translator.setup` only registers the filter and the directives (exercised by the oracle). -/
+theorem lookups_subset_extract_args (cfg : Cfg) (ctx : Ctx) (s : TStream) (h : WideList cfg s)
+    (tt ta st : Bool) (cs xs : List Str) (hst : st = true ∨ cfg.extractText = false) :
+    ∃ ms, extractWith cfg st cs xs s = .ok ms ∧
+      (∀ l ∈ lookups cfg ctx tt ta s, hasLetter l.msgid = true → l.msgid ∈ idsOf ms) ∧
+      (∀ id ∈ msgIdsW s, id ∈ idsOf ms) :=
+  Genshi.I18n.lookups_subset_extract_args cfg ctx s h tt ta st cs xs hst
+
+/-- `<p title="Tip">Hi</p>` extracted with `comment_stack=['c']`, `context_stack=['m']`: the text
+    comes out as `pgettext('m', 'Hi')` with the comment, the attribute plain; the pass (under a
+    domain frame, attributes only) looks `Tip` up -/
+example :
+    okMsgList [.start ⟨[], ['p']⟩ [(⟨[], ['t','i','t','l','e']⟩, .str ['T','i','p'])], .text ['H','i'], .end_ ⟨[], ['p']⟩] = true ∧
+    extractWith Cfg.default true [['c']] [['m']]
+      [.start ⟨[], ['p']⟩ [(⟨[], ['t','i','t','l','e']⟩, .str ['T','i','p'])], .text ['H','i'], .end_ ⟨[], ['p']⟩] =
+      .ok [⟨none, .one (some ['T','i','p']), []⟩,
+           ⟨some ['p','g','e','t','t','e','x','t'], .many [some ['m'], some ['H','i']], [['c']]⟩] ∧
+    (lookups Cfg.default [.domain ['d']] false true
+      [.start ⟨[], ['p']⟩ [(⟨[], ['t','i','t','l','e']⟩, .str ['T','i','p'])], .text ['H','i'], .end_ ⟨[], ['p']⟩]).map
+        Lookup.msgid = [['T','i','p']] := by
+  refine ⟨by decide +kernel, by decide +kernel, by decide +kernel⟩
 
 /-- the streams of the first version of the theorem — message directives alone on their
     element, content without directive-carrying elements (`okMsgList`, decidable) — are among them -/
@@ -907,6 +942,51 @@ example :
        .sub [.domain ['d'], .ctxt ['m'], .other ['i','f']] [.start ⟨[], ['b']⟩ [], .expr 0 [], .end_ ⟨[], ['b']⟩],
        .text ['!']] := by
   refine ⟨by decide +kernel, by decide +kernel, by decide +kernel, by decide +kernel, by decide +kernel⟩
+
+/-- **identity_transparent, pass and directive together, in one statement** (wave 4: the skip
+    counter read on the tree).  `identity_transparent_msg_sub` allows excluded elements inside
+    the message but no `i18n:domain` / `i18n:ctxt` on its directive-carrying elements;
+    `identity_transparent_msg_reorder` allows those but no excluded element.  Here both: inside
+    an element excluded by `ignore_tags` or a literal `xml:lang` the pass hands every event on
+    untouched — SUB events with their directive lists included (`trListM_skip`: a forest passes,
+    the counter comes back) —, everywhere else it re-orders the directive lists and changes
+    nothing (`trListM_idX`); on the forest of the message that is `reordXM cfg`.  The message
+    directive then returns the content unchanged up to the white space at the edges of the
+    message and the chunking of text.  (`if excluded cfg t a`: the element carrying `i18n:msg` may
+    itself be excluded — finding C19-msg-in-excluded: it is still translated — and then nothing
+    inside is re-ordered.) -/
+theorem identity_transparent_msg_skip (cfg : Cfg) (ctx : Ctx) (ta : Bool) (t : QName) (a : TAttrs) (F : List MNode)
+    (extra : List Str) (hc : cleanM F = true) (hna : deepNoAdjM F = true) (hnd : (namesM F).Nodup)
+    (hso : subsOKM false F = true)
+    (hattr : cleanList cfg (.start t a :: (flattenM F ++ [.end_ t])) = true) :
+    msgGenerate (namesM F ++ extra) (fun s => s)
+        (trList cfg Catalog.id ctx false ta 0 (.start t a :: (flattenM F ++ [.end_ t]))) =
+      .ok (.start t a :: (coalesce (flattenM (trimF (if excluded cfg t a then F else reordXM cfg F))) ++ [.end_ t])) :=
+  pass_then_msg_identity_skip cfg ctx ta t a F extra hc hna hnd hso hattr
+
+/-- it contains `identity_transparent_msg_reorder`: without excluded elements `reordXM` is `reordM` -/
+theorem skip_generalises_reorder (cfg : Cfg) (F : List MNode) (h : noExclList cfg (flattenM F) = true) :
+    reordXM cfg F = reordM F :=
+  reordXM_eq_reordM cfg F h
+
+/-- `<p i18n:msg="n"> Hi, <b py:if="c" i18n:ctxt="m">${n}</b><script><i py:if="c" i18n:ctxt="m">x</i></script>! </p>`:
+    the directive list outside the ignored `script` is re-ordered, the one inside is not -/
+example :
+    let F : List MNode :=
+      [.text [' ','H','i',',',' '], .elem (some [.other ['i','f'], .ctxt ['m']]) ⟨[], ['b']⟩ [] [.expr ['n'] 0 []],
+       .elem none ⟨[], ['s','c','r','i','p','t']⟩ [] [.elem (some [.other ['i','f'], .ctxt ['m']]) ⟨[], ['i']⟩ [] [.text ['x']]],
+       .text ['!',' ']]
+    cleanM F = true ∧ deepNoAdjM F = true ∧ subsOKM false F = true ∧
+    cleanList Cfg.default (.start ⟨[], ['p']⟩ [] :: (flattenM F ++ [.end_ ⟨[], ['p']⟩])) = true ∧
+    noExclList Cfg.default (flattenM F) = false ∧
+    coalesce (flattenM (trimF (reordXM Cfg.default F))) =
+      [.text ['H','i',',',' '],
+       .sub [.ctxt ['m'], .other ['i','f']] [.start ⟨[], ['b']⟩ [], .expr 0 [], .end_ ⟨[], ['b']⟩],
+       .start ⟨[], ['s','c','r','i','p','t']⟩ [],
+       .sub [.other ['i','f'], .ctxt ['m']] [.start ⟨[], ['i']⟩ [], .text ['x'], .end_ ⟨[], ['i']⟩],
+       .end_ ⟨[], ['s','c','r','i','p','t']⟩,
+       .text ['!']] := by
+  refine ⟨by decide +kernel, by decide +kernel, by decide +kernel, by decide +kernel, by decide +kernel, by decide +kernel⟩
 
 /-- **identity_transparent, plural choice** (`ChooseDirective.__call__` with
     `ChooseBranchDirective.__call__`).  For `pre <ts i18n:singular>Fs</ts> mid
